@@ -254,6 +254,39 @@ def _wrap(doc, ptr_hex, kind, rng):
         return "{" + key.hex() + ":" + doc + "}", (b"/" + key + p).hex()
     return doc, ptr_hex
 
+def _top_members(doc):
+    """top-level `key:value` strings of an object document, or None"""
+    if not (doc.startswith("{") and doc.endswith("}")): return None
+    body = doc[1:-1]; out = []; depth = 0; cur = ""
+    for ch in body:
+        if ch in "{[": depth += 1
+        if ch in "}]": depth -= 1
+        if ch == "," and depth == 0:
+            out.append(cur); cur = ""
+        else: cur += ch
+    if cur: out.append(cur)
+    return out
+
+def _confusable(doc, pb):
+    out = []
+    if pb.count(b"/") < 2 and b"~" not in pb: return out
+    ms = _top_members(doc)
+    if ms is None:
+        doc = "{77:" + doc + "}"; pb = b"/w" + pb; ms = _top_members(doc)
+    keys = {m.split(":", 1)[0] for m in ms}
+    cands = []
+    if pb.count(b"/") >= 2: cands.append(pb[1:])                       # the whole tail, slashes and all
+    first = pb[1:].split(b"/")[0]
+    if b"~" in first: cands.append(first)                               # the first token as written (escapes not decoded)
+    dec = first.replace(b"~1", b"/").replace(b"~0", b"~")
+    if pb.count(b"/") >= 2 and dec != first: cands.append(dec + b"/" + pb[1:].split(b"/", 1)[1])
+    for k in cands:
+        if k.hex() in keys or not k: continue
+        for val in ("#i7", "{62:#i8}"):
+            members = sorted(ms + [k.hex() + ":" + val], key=lambda m: bytes.fromhex(m.split(":", 1)[0]))
+            out.append(("{" + ",".join(members) + "}", pb))
+    return out
+
 def tree_variants(line, rng, prop):
     parts = line.split(" ")
     op = parts[0]
@@ -269,6 +302,10 @@ def tree_variants(line, rng, prop):
             q = list(parts); q[di] = d2; q[pi] = "x" + p2
             out.append(" ".join(q))
         pb = bytes.fromhex(ptr[1:])
+        # a sibling member whose NAME is the raw text of the pointer's tail ("a/b" next to a = {b: …} for /a/b), and one named like
+        # the first token's *encoded* text: only a walk that splits and decodes token by token tells them apart
+        for conf in _confusable(doc, pb):
+            q = list(parts); q[di] = conf[0]; q[pi] = "x" + conf[1].hex(); out.append(" ".join(q))
         # a long remainder to materialise / to fail on: > 64 tokens behind the original pointer
         q = list(parts); q[pi] = "x" + (pb + b"/a" * rng.choice([64, 65, 70, 129, 130]) + b"/b").hex(); out.append(" ".join(q))
         # three-digit indices (above 255) and a 20-digit overflow in the last position
@@ -277,6 +314,7 @@ def tree_variants(line, rng, prop):
         # … an overflowing digit run FOLLOWED by a non-digit (the reason is the character, not the overflow)
         big += [big[0] + rng.choice([b"x", b" ", b"+", "\u0663".encode()]), b"18446744073709551616a"]
         big += ["\u0131".encode(), "1\u0130".encode(), "\u0132".encode()]      # code points whose low byte is an ASCII digit
+        big += [b"~1", b"1~12", b"0~0", b"~01"]                                    # escapes where an index is expected: the reason quotes the token as written
         for tok in [b"256", b"299", b"999", b"18446744073709551616"] + big:
             if rng.random() < 0.5 or tok in big:
                 q = list(parts); q[pi] = "x" + (pb[:pb.rfind(b"/")] + b"/" + tok if b"/" in pb else b"/" + tok).hex(); out.append(" ".join(q))
@@ -288,6 +326,11 @@ def tree_variants(line, rng, prop):
             q = list(parts)
             q[di] = re.sub(r"#t(?=[,\]}]|$)", NZERO, q[di]); q[vi] = "[" + PZERO + "]" if rng.random() < 0.3 else PZERO
             out.append(" ".join(q))
+        # toml floats may be `nan` (which is not `==` to itself): a contract check written with `assert_eq!` on the removed value fires there
+        if backend == "toml" and op == "delete" and "#t" in parts[di]:
+            for nanbits in ("#d7ff8000000000000", "#dfff8000000000001", "#d7ff0000000000000"):
+                q = list(parts); q[di] = re.sub(r"#t(?=[,\]}]|$)", nanbits, q[di]); out.append(" ".join(q))
+            q = list(parts); q[di] = "[" + parts[di] + ",#d7ff8000000000000]"; q[pi] = "x" + (b"/0" + pb).hex(); out.append(" ".join(q))
         # a value that is the TEXT of the typed scalar it replaces (toml date-time vs the string that spells it)
         if backend == "toml" and vi is not None and vi < len(parts) and "#t" in parts[di] and prop != "C09":
             q = list(parts)
@@ -387,6 +430,42 @@ def parse_memo_families(lines, rng):
                     out.append(f"{op} {_hex(g)}"); out.append(f"{op} {_hex(b)}")
     return out
 
+def ascii_sweep(lines):
+    """every ASCII byte in front of, behind and just inside a few base strings, for the operations that take a string: a character
+    that is given a meaning it does not have (`#` as a URI-fragment marker, `%`, `\\`, a space to trim, NUL) is outside every alphabet"""
+    ops = {l.split(" ", 1)[0] for l in lines}
+    out = []
+    bases = [b"", b"/", b"/a", b"/~", b"/~0", b"/a/~", b"a", b"~", b"/a~x/b", b"0", b"-"]
+    for op in sorted(ops & (set(STR_OPS) | {"index_str"})):
+        for b in bases:
+            for c in range(128):
+                ch = bytes([c])
+                for v in (ch + b, b + ch, b[:1] + ch + b[1:], ch + ch + b):
+                    out.append(f"{op} {_hex(v)}")
+    return sorted(set(out))
+
+def token_count_sweep(lines, rng):
+    """pointers with EXACTLY c tokens for every c within 2 of a power of two up to 512 and of every mined number (inline tables,
+    depth caps, `zip` against a fixed array: off by one at exactly one count), for the operations that take a pointer; the
+    harness's own laws (`law_join` over every cut, `law_list`, …) then look at every position of each"""
+    ops = {l.split(" ", 1)[0] for l in lines}
+    base = [8, 16, 32, 64, 128, 256, 512] + [k for k in MINED_LENS if 4 <= k <= 2048]
+    counts = sorted({c for n in base for c in (n - 2, n - 1, n, n + 1, n + 2) if c > 0})
+    out = []
+    for c in counts:
+        shapes = [b"/a" * c, b"/" * c] + ([b"".join(b"/" + rng.choice([b"a", b"~0", b"", b"bc", b"~1"]) for _ in range(c))] if c <= 520 else [])
+        for sh in shapes:
+            h = _hex(sh)
+            if "get" in ops:
+                for r in (f"rt@{c}", f"rf@{c - 1}", f"ri@0@{c - 1}", f"r@1@{c}", f"tok@{c - 1}", f"rti@{c - 1}", f"bb@ex:0@in:{c - 1}"):
+                    out.append(f"get {h} {r}")
+            for op in ("ptr_view", "split_back", "parent", "split_front"):
+                if op in ops: out.append(f"{op} {h}")
+            if "split_at" in ops: out.append(f"split_at {h} {len(sh) - len(sh.rsplit(b'/', 1)[-1]) - 1}")
+            if "rel" in ops:
+                out.append(f"rel {h} {_hex(sh[:max(0, sh.rfind(b'/', 0, len(sh) // 2 + 1))])}"); out.append(f"rel {h} {h}")
+    return out
+
 MINED_LENS = []      # lengths mined from changed source lines (tools/mine.py), set per run by augment()
 
 def use_mined(mined):
@@ -455,6 +534,15 @@ def augment(prop, lines, seed, budget=40000, mined=None):
         big = _hex(b"/" * n)
         for r in (f"rf@{n - 1}", f"bb@in:{n - 1}@un", f"rt@{n - 1}", f"r@{n - 2}@{n}", f"tok@{n - 1}"):
             out.append(f"get {big} {r}")
+    out.extend(token_count_sweep(lines, rng))
+    out.extend(ascii_sweep(lines))
+    if any(l.startswith("get ") for l in lines):
+        # the far end of the index type in every range form (an `i + 1` on the index overflows only there)
+        M = 2 ** 64 - 1
+        for ph in ("x", "x2f", "x2f61", "x2f612f7e30"):
+            for r in (f"tok@{M}", f"tok@{M - 1}", f"rf@{M}", f"rt@{M}", f"ri@0@{M}", f"ri@{M}@{M}", f"r@{M}@{M}", f"r@0@{M}", f"rti@{M}",
+                      f"bb@in:{M}@un", f"bb@ex:{M}@un", f"bb@un@in:{M}", f"bb@un@ex:{M}", f"bb@ex:{M - 1}@in:{M}"):
+                out.append(f"get {ph} {r}")
     for v in wordscale(prop, lines, rng, budget // 3):
         if v not in seen:
             seen.add(v); out.append(v)
